@@ -50,6 +50,7 @@ def check_lookup(z_r, h, N, tag, case, bad):
 
     nh = z_r.shape[1]
     n = 0
+    single = []  # (X, Z, K, A) of the per-column calls
     for c in range(nh):
         zr = z_r[:, c]
         depths = [-5.0, 0.0, h[c], h[c] + 100.0, 0.5 * (-zr[-1])] + (-zr).tolist() + (-(zr[1:] + zr[:-1]) / 2).tolist()
@@ -64,6 +65,7 @@ def check_lookup(z_r, h, N, tag, case, bad):
         n += len(Z)
         K = np.asarray(K)
         A = np.asarray(A)
+        single.append((X, Z, K.copy(), A.copy()))
         inrange = (K >= 1) & (K <= N - 1)
         if not inrange.all():
             i = int(np.argmin(inrange))
@@ -79,6 +81,22 @@ def check_lookup(z_r, h, N, tag, case, bad):
         if (err > 1e-9 * max(1.0, h[c])).any():
             i = int(np.argmax(err))
             bad("lookup:depth", f"{tag} h={h[c]} depth={Z[i]}: weighted level depth {got[i]} expected {exp[i]} (K={K[i]}, A={A[i]})")
+    # the same lookups as ONE call with more than a thousand particles, columns interleaved (not sorted by cell): same answer per particle
+    if len(single) >= 2 and N > 1:
+        Xa, Za, Ka, Aa = (np.concatenate([t[k] for t in single]) for k in range(4))
+        order = np.argsort((np.arange(len(Xa)) * 7919) % len(Xa), kind="stable")  # a fixed scramble
+        reps = max(1, -(-1100 // len(Xa)))
+        idx = np.tile(order, reps)
+        try:
+            Kb, Ab = z2s(z_r[:, None, :], Xa[idx], np.zeros(len(idx)), Za[idx])
+            Kb, Ab = np.asarray(Kb), np.asarray(Ab)
+            if Kb.shape != Ka[idx].shape or not (np.array_equal(Kb, Ka[idx]) and np.array_equal(Ab, Aa[idx])):
+                i = int(np.argmax((Kb != Ka[idx]) | (Ab != Aa[idx]))) if Kb.shape == Ka[idx].shape else 0
+                bad("lookup:bulk-call-differs", f"{tag}: one z2s call with {len(idx)} particles gives (K, A)=({Kb[i] if Kb.shape == Ka[idx].shape else Kb.shape}, {Ab[i] if Kb.shape == Ka[idx].shape else ''}) for the particle "
+                                                f"at column {Xa[idx][i]} depth {Za[idx][i]}, the call for that column alone gave ({Ka[idx][i]}, {Aa[idx][i]})")
+        except Exception as e:
+            bad("lookup:exception", f"{tag}: bulk z2s call raised {e!r}")
+        n += len(idx)
     return n
 
 
